@@ -63,6 +63,7 @@ func newQueue[T any](w *worker[T, iJob[T]], q IQueue) *queue[T] {
 
 func (q *queue[T]) Add(data T, configs ...JobConfigFunc) (EnqueuedJob, bool) {
 	j := newJob(data, loadJobConfigs(q.w.configs(), configs...))
+	j.changeStatus(queued)
 
 	if ok := q.internalQueue.Enqueue(j); !ok {
 		j.Close()
@@ -70,7 +71,6 @@ func (q *queue[T]) Add(data T, configs ...JobConfigFunc) (EnqueuedJob, bool) {
 	}
 
 	q.w.Metrics().incSubmitted()
-	j.changeStatus(queued)
 	q.w.notifyToPullNextJobs()
 
 	return j, true
@@ -81,13 +81,14 @@ func (q *queue[T]) AddAll(items []Item[T]) EnqueuedGroupJob {
 
 	for _, item := range items {
 		j := groupJob.newJob(item.Data, loadJobConfigs(q.w.configs(), WithJobId(item.ID)))
+		j.changeStatus(queued)
+
 		if ok := q.internalQueue.Enqueue(j); !ok {
 			j.Close()
 			continue
 		}
 
 		q.w.Metrics().incSubmitted()
-		j.changeStatus(queued)
 		q.w.notifyToPullNextJobs()
 	}
 
@@ -123,6 +124,7 @@ func newErrorQueue[T any](w *worker[T, iErrorJob[T]], q IQueue) *errorQueue[T] {
 
 func (q *errorQueue[T]) Add(data T, configs ...JobConfigFunc) (EnqueuedErrJob, bool) {
 	j := newErrorJob(data, loadJobConfigs(q.w.configs(), configs...))
+	j.changeStatus(queued)
 
 	if ok := q.internalQueue.Enqueue(j); !ok {
 		j.Close()
@@ -130,7 +132,6 @@ func (q *errorQueue[T]) Add(data T, configs ...JobConfigFunc) (EnqueuedErrJob, b
 	}
 
 	q.w.Metrics().incSubmitted()
-	j.changeStatus(queued)
 	q.w.notifyToPullNextJobs()
 
 	return j, true
@@ -141,13 +142,14 @@ func (q *errorQueue[T]) AddAll(items []Item[T]) EnqueuedErrGroupJob {
 
 	for _, item := range items {
 		j := groupJob.newJob(item.Data, loadJobConfigs(q.w.configs(), WithJobId(item.ID)))
+		j.changeStatus(queued)
+
 		if ok := q.internalQueue.Enqueue(j); !ok {
 			j.Close()
 			continue
 		}
 
 		q.w.Metrics().incSubmitted()
-		j.changeStatus(queued)
 		q.w.notifyToPullNextJobs()
 	}
 
@@ -182,6 +184,7 @@ func newResultQueue[T, R any](w *worker[T, iResultJob[T, R]], q IQueue) *resultQ
 
 func (q *resultQueue[T, R]) Add(data T, configs ...JobConfigFunc) (EnqueuedResultJob[R], bool) {
 	j := newResultJob[T, R](data, loadJobConfigs(q.w.configs(), configs...))
+	j.changeStatus(queued)
 
 	if ok := q.internalQueue.Enqueue(j); !ok {
 		j.Close()
@@ -189,7 +192,6 @@ func (q *resultQueue[T, R]) Add(data T, configs ...JobConfigFunc) (EnqueuedResul
 	}
 
 	q.w.Metrics().incSubmitted()
-	j.changeStatus(queued)
 	q.w.notifyToPullNextJobs()
 
 	return j, true
@@ -200,13 +202,14 @@ func (q *resultQueue[T, R]) AddAll(items []Item[T]) EnqueuedResultGroupJob[R] {
 
 	for _, item := range items {
 		j := groupJob.newJob(item.Data, loadJobConfigs(q.w.configs(), WithJobId(item.ID)))
+		j.changeStatus(queued)
+
 		if ok := q.internalQueue.Enqueue(j); !ok {
 			j.Close()
 			continue
 		}
 
 		q.w.Metrics().incSubmitted()
-		j.changeStatus(queued)
 		q.w.notifyToPullNextJobs()
 	}
 
